@@ -220,3 +220,47 @@ def check_dead_overflow_checks(ctx, F, rule="E-DDDMP.deadcheck"):
     if not bad:
         ctx.ob(rule, rule + ":oxidd_dump", True, "no checked_shl/checked_shr with a constant in-range amount in %d bodies" % n)
     return n
+
+
+def check_prefix_direction(ctx, F, rule="E-DDDMP.prefix"):
+    """`input.starts_with(token)` asks whether the input begins with the expected token; with receiver and argument
+    swapped (`token.starts_with(input)`) every *prefix of the token* -- in particular a truncated or empty rest of
+    the file -- is accepted.  In dddmp::import, wherever exactly one side of a starts_with / ends_with / strip_prefix /
+    strip_suffix is a buffer filled from the file (`read_to_end`, `read_until`, `read_line`, `read_exact`), that side
+    must be the receiver."""
+    from lib import hirutil as H
+    TRANSPARENT = ("trim_ascii", "trim_ascii_start", "trim_ascii_end", "as_slice", "as_ref", "borrow", "deref", "trim", "trim_start", "trim_end")
+    n = 0
+    for fid, h in sorted(F.hir.items()):
+        if not fid.startswith(MOD):
+            continue
+        bufs = set()
+        for c in H.walk(h["body"]):
+            if c.get("k") == "mcall" and (c.get("name") or c.get("m", "").rsplit("::", 1)[-1]) in \
+                    ("read_to_end", "read_until", "read_line", "read_exact", "read_to_string"):
+                for a in c.get("a", []):
+                    l = H.root_local(a)
+                    if l:
+                        bufs.add(l)
+        if not bufs:
+            continue
+        for c in H.walk(h["body"]):
+            nm = c.get("name") or (c.get("m", "").rsplit("::", 1)[-1] if c.get("k") == "mcall" else "")
+            if c.get("k") == "mcall" and nm in ("starts_with", "ends_with", "strip_prefix", "strip_suffix") and c.get("a"):
+                def root(e):
+                    while isinstance(e, dict) and e.get("k") == "mcall" and (e.get("name") in TRANSPARENT):
+                        e = e["r"]
+                    if isinstance(e, dict) and e.get("k") in ("ref", "use", "cast") and isinstance(e.get("e"), dict) \
+                            and e["e"].get("k") == "mcall" and e["e"].get("name") in TRANSPARENT:
+                        return root(e["e"])
+                    return H.root_local(e)
+                r = root(c["r"])
+                a = root(c["a"][0])
+                n += 1
+                bad = (a in bufs) and (r not in bufs)
+                ctx.ob(rule, "%s:%s:%s" % (rule, F.nice(fid), nm), not bad,
+                       "%s (%s, line %s): %s" % (F.nice(fid), F.where(fid), c.get("ln"),
+                                                 "the buffer read from the file is the receiver of `%s`" % nm if not bad else
+                                                 "`%s.%s(%s)`: the buffer read from the file is the *argument*; every prefix of the "
+                                                 "expected token (a truncated file) passes the check" % (r, nm, a)))
+    return n
